@@ -134,6 +134,27 @@ def hook_reinforce(model, mon, kind, B_hint=None):
             return out
 
         cr.forward = cforward
+    frozen = {}
+    if kind == "rollout" and hasattr(inner, "_update_policy"):
+        # the monitor's own model of the rollout baseline: a frozen copy of the policy taken whenever the baseline is rebuilt
+        import copy
+
+        o_update = inner._update_policy
+
+        def update(policy, *a, **kw):
+            frozen["policy"] = copy.deepcopy(policy)
+            mon.ctx.count("c16_rollout_baseline_rebuilds")
+            return o_update(policy, *a, **kw)
+
+        inner._update_policy = update
+        o_shared = model.shared_step
+
+        def shared_step(batch, *a, **kw):
+            # env.reset consumes the batch object (torchrl resets in place): keep the instances as handed over
+            frozen["instances"] = batch.exclude("extra").clone() if "extra" in batch.keys() else None
+            return o_shared(batch, *a, **kw)
+
+        model.shared_step = shared_step
     warm_n = getattr(bl, "n_epochs", None)
     warm_beta = getattr(getattr(bl, "warmup_baseline", None), "beta", 0.8)
     beta = getattr(inner, "beta", 0.8) if kind in ("exponential", "mean") else None
@@ -176,6 +197,23 @@ def hook_reinforce(model, mon, kind, B_hint=None):
             elif extra is None:
                 mon.v("rollout_value_missing", f"epoch {epoch}: warm-up weight {alpha} > 0 but the batch carries no rollout-baseline value")
                 return out
+            if extra is not None and frozen.get("policy") is not None and frozen.get("instances") is not None:
+                # the value the batch carries must be the greedy reward of the policy the baseline was last built from
+                from vlib.c17impl import MARGIN, _greedy
+
+                was = model.policy.training
+                ref, marg = _greedy(frozen["policy"], model.env, frozen["instances"], with_margin=True)
+                model.policy.train(was)
+                ex = extra.detach().reshape(-1)
+                for i in range(ex.shape[0]):
+                    if marg[i] < MARGIN:
+                        continue
+                    ctx.count("c16_rollout_values_checked")
+                    if abs(float(ex[i]) - float(ref.reshape(-1)[i])) > 1e-4 * max(1.0, abs(float(ref.reshape(-1)[i]))):
+                        mon.v("rollout_value", f"epoch {epoch}: rollout-baseline value {float(ex[i])} used for an instance != greedy reward {float(ref.reshape(-1)[i])} of the policy the baseline was built from")
+                        return out
+            if alpha == 0 or extra is None:
+                pass
             elif alpha < 1:
                 b = alpha * extra.detach() + (1 - alpha) * mon.ema
                 ctx.count("c16_warmup_mixture_steps")
